@@ -140,6 +140,8 @@ def build_class(mspec, events, clock=None, hw=None):
     from frappy.errors import RangeError
     base = getattr(C, mspec['base'])
     ns = {'__module__': 'vlib.modgen.generated', '__doc__': mspec['description']}
+    if mspec.get('nopoll'):
+        ns['enablePoll'] = False       # a module that is never polled (its configured values are still written at start-up)
     hw = hw if hw is not None else {}
     mname = mspec['name']
     subns = {'__module__': 'vlib.modgen.generated', '__doc__': mspec['description']}   # split_limits: limits added by a subclass
